@@ -1076,16 +1076,17 @@ impl Visitor<Diagnostic> for LibraryRenderer {
         self.newline();
 
         self.indent();
+        // The global variables come before the tasks and the programs
+        for var in node.global_vars.iter() {
+            self.visit_var_decl(var)?;
+        }
+
         for task in node.tasks.iter() {
             self.visit_task_configuration(task)?;
         }
 
         for program in node.programs.iter() {
             self.visit_program_configuration(program)?;
-        }
-
-        for var in node.global_vars.iter() {
-            self.visit_var_decl(var)?;
         }
 
         self.outdent();
@@ -1212,6 +1213,12 @@ impl Visitor<Diagnostic> for LibraryRenderer {
         self.write_ws("CONFIGURATION");
         self.visit_id(&node.name)?;
         self.newline();
+
+        self.indent();
+        for var in node.global_var.iter() {
+            self.visit_var_decl(var)?;
+        }
+        self.outdent();
 
         self.indent();
         for res in node.resource_decl.iter() {
